@@ -319,6 +319,10 @@ func (g *Up4Gen) appQer(id uint32) pfcpx.QER {
 		q.DLGate = 1
 	}
 
+	if g.R.Intn(3) == 0 { // no guaranteed rate: such a QER can be taken for the session QER when all PDRs refer to it
+		q.ULGBR, q.DLGBR = 0, 0
+	}
+
 	return q
 }
 
@@ -574,6 +578,26 @@ func (g *Up4Gen) ModifyKind(s *usess, kind int) {
 			if f.qer != 0 {
 				cands = append(cands, f)
 			}
+		}
+
+		// the session QER: a new aggregate rate, now and then below the rates of the flows' QERs (a single-flow session's
+		// QERs are both referred to by every PDR: which of them counts as the session QER may change with the rates)
+		if s.sessQer != 0 && (len(cands) == 0 || g.R.Intn(3) == 0) {
+			nq := s.sq
+			nq.ULMBR, nq.DLMBR = uint64(2000000+g.R.Intn(1000000)), uint64(2000000+g.R.Intn(1000000))
+
+			if g.R.Intn(2) == 0 {
+				nq.ULMBR, nq.DLMBR = uint64(500+g.R.Intn(3000)), uint64(500+g.R.Intn(3000))
+			}
+
+			r.UQER = []pfcpx.QER{nq}
+
+			if accepted(g.W.Mod(s.peer, r)) {
+				s.sq = nq
+				g.Stats["mod_sessqer_ok"]++
+			}
+
+			return
 		}
 
 		if len(cands) == 0 {
